@@ -148,11 +148,15 @@ fn quiesce_outside(env: &Env, p: &Program) {
 
 fn wait_batches(env: &Env) {
     let cache = env.cache.clone();
-    world::wait_until(move |w| {
-        let applied: i64 = w.events.iter().filter(|e| e.kind == "batch_applied").map(|e| e.data[0]).sum();
-        let added = cache.stats_summary().get(&crate::cache::stats::StatsType::AccessAdded).unwrap_or(0) as i64;
-        applied >= added
-    });
+    world::wait_until_labelled(
+        move |w| {
+            let applied: i64 = w.events.iter().filter(|e| e.kind == "batch_applied").map(|e| e.data[0]).sum();
+            let added = cache.stats_summary().get(&crate::cache::stats::StatsType::AccessAdded).unwrap_or(0) as i64;
+            applied >= added
+        },
+        "access-batches",
+        |_| "buffers were delivered to the access-count consumer but it never applied them".to_string(),
+    );
 }
 
 fn run_once(p: &Arc<Program>, oracle: &Oracle, col: &Collector, bound: u32, sample_max: usize) {
@@ -532,9 +536,13 @@ pub fn replay_program(p: Program, oracle: Oracle, choices: Vec<u32>) -> Result<V
 }
 
 pub fn normalize_deadlock(msg: &str) -> String {
-    // keep only the number of blocked tasks: ids and addresses vary
-    let n = msg.matches("TaskId").count().max(msg.matches("task").count());
-    format!("{}-tasks", n)
+    // "deadlock[<what the harness waited for>] ..." -> keep the tag; ids and addresses vary
+    if let Some(rest) = msg.strip_prefix("deadlock[") {
+        if let Some(end) = rest.find(']') {
+            return format!("while-waiting-for-{}", &rest[..end]);
+        }
+    }
+    "no-task-enabled".to_string()
 }
 
 pub fn normalize_panic(msg: &str) -> String {
